@@ -883,7 +883,7 @@ async fn scripted(name: &str, case: usize, summary: &mut Summary) -> (Sim, Strin
             if sim.dead {
                 return (sim, desc);
             }
-            for (vi, v) in ["overspend", "overspend-wrap", "spv-mint", "issuance-later", "issuance-later-with-golden-ticket"].iter().enumerate() {
+            for (vi, v) in ["overspend", "overspend-wrap", "spv-mint", "issuance-later", "issuance-later-with-golden-ticket", "golden-ticket-with-value-outputs", "golden-ticket-overspend"].iter().enumerate() {
                 let ts = sim.tip().timestamp + 2 * HEARTBEAT + 1000;
                 let s = match sim.spendable().into_iter().filter(|s| s.public_key == sim.keys[1].0).max_by_key(|s| s.amount) {
                     Some(s) => s,
@@ -904,14 +904,34 @@ async fn scripted(name: &str, case: usize, summary: &mut Summary) -> (Sim, Strin
                     "spv-mint" => raw_tx(TransactionType::SPV, vec![], vec![slip_out(sim.keys[3].0, 1_000_000, SlipType::Normal)], &sim.keys[3].1, ts),
                     _ => raw_tx(TransactionType::Issuance, vec![], vec![slip_out(sim.keys[3].0, 1_000_000, SlipType::Normal)], &sim.keys[0].1, ts),
                 };
-                let want_ticket = *v == "issuance-later-with-golden-ticket" || !sim.tip().has_golden_ticket;
-                let gt = if want_ticket {
+                let ticket_variant = v.starts_with("golden-ticket");
+                let want_ticket = ticket_variant || *v == "issuance-later-with-golden-ticket" || !sim.tip().has_golden_ticket;
+                let mut gt = if want_ticket {
                     let parent = sim.tip().clone();
                     Some(gt_tx_for(&sim.node, &parent, sim.keys[1].0, 800 + vi as u64).await)
                 } else {
                     None
                 };
-                let (co, sr) = sim.honest_step(ts, gt, &[tx]).await;
+                let mut pooled = vec![tx];
+                if ticket_variant {
+                    // the miner attaches value outputs to his own golden-ticket transaction (signed by him):
+                    // 5_000_000 from nothing, or an own input of a with outputs a + 5_000_000
+                    let mut g = gt.take().unwrap();
+                    if *v == "golden-ticket-overspend" {
+                        let own = sim.spendable().into_iter().filter(|s| s.public_key == sim.keys[0].0).min_by_key(|s| s.amount);
+                        if let Some(mut own) = own {
+                            own.generate_utxoset_key();
+                            g.add_to_slip(slip_out(sim.keys[0].0, own.amount, SlipType::Normal));
+                            g.add_from_slip(own);
+                        }
+                    }
+                    g.add_to_slip(slip_out(sim.keys[0].0, 5_000_000, SlipType::Normal));
+                    g.sign(&sim.node.sk);
+                    g.generate(&sim.node.pk, 0, 0);
+                    gt = Some(g);
+                    pooled = vec![];
+                }
+                let (co, sr) = sim.honest_step(ts, gt, &pooled).await;
                 summary.count("scripted", &format!("{}:{}:create-{}:{:?}", name, v, match co { CreateOutcome::Ok => "ok", CreateOutcome::Err(_) => "err", CreateOutcome::Panic(_) => "panic", _ => "-" }, sr.add.clone().map(|c| c.code())));
                 if let CreateOutcome::Panic(p) = &co {
                     summary.oracle_failure(case, &format!("Block::create panicked on a pooled transaction ({}): {}", v, p), &desc);
